@@ -226,7 +226,7 @@ def Out.delivers : Out → Bool
 
 /-- the event is an `init` with an opening ticket that answered with fresh secrets `ps`, `us` -/
 def IssuingEv (e : Action × Out) (tid : Nat) (ps us : Secret) : Prop :=
-  ∃ m b, e = (Action.init (.good tid) m, Out.http 201 b true) ∧ (b = .pollUrl ps us ∨ b = .userUrls ps us)
+  ∃ m b, e = (Action.init (sealer tid) (.good tid) m, Out.http 201 b true) ∧ (b = .pollUrl ps us ∨ b = .userUrls ps us)
 
 /-- flow `(ps, us)` was started by an `init` on ticket `good tid` -/
 def Issued (h : Hist) (tid : Nat) (ps us : Secret) : Prop := ∃ e ∈ h, IssuingEv e tid ps us
@@ -237,8 +237,8 @@ def IssuedKey (h : Hist) (k : Key) : Prop :=
 
 /-- a successful decision of the application on the flow `(ps, us)` -/
 def decisionOf (ps us : Secret) : Action × Out → Option Decision
-  | (.decide .poll s d, .api true) => if s = ps then some d else none
-  | (.decide .user s d, .api true) => if s = us then some d else none
+  | (.decide _ .poll s d, .api true) => if s = ps then some d else none
+  | (.decide _ .user s d, .api true) => if s = us then some d else none
   | _ => none
 
 /-- the latest successful decision on the flow `(ps, us)` -/
@@ -256,7 +256,7 @@ def respOf (tid : Nat) : Option Decision → Option Resp
   | some (.abort msg) => some ⟨200, .error msg⟩
 
 /-- some poll with `ps` delivered -/
-def Collected (h : Hist) (ps : Secret) : Prop := ∃ o, (Action.poll ps, o) ∈ h ∧ o.delivers = true
+def Collected (h : Hist) (ps : Secret) : Prop := ∃ v o, (Action.poll v ps, o) ∈ h ∧ o.delivers = true
 
 /-- the LRU dropped the key at some point -/
 def Evicted (h : Hist) (k : Key) : Prop := ∃ o, (Action.evict k, o) ∈ h
@@ -266,11 +266,47 @@ def Decision.ok : Decision → Bool
   | .approve cs => !refuses cs
   | .abort _ => true
 
-theorem decideData_respOf {sd : Data} {tid : Nat} (ht : sd.ticket = .good tid) (d : Decision) (hok : d.ok = true) :
-    decideData sd d = some { sd with resp := respOf tid (some d) } := by
-  cases d <;> simp_all [decideData, respOf, Decision.ok]
+theorem opens_some {v : Nat} {t : Ticket} {tid : Nat} (h : opens v t = some tid) : t = .good tid ∧ sealer tid = v := by
+  cases t with
+  | bad n => simp [opens] at h
+  | good id =>
+    simp only [opens] at h
+    split at h
+    · cases h; exact ⟨rfl, by assumption⟩
+    · cases h
 
-theorem decideData_some_ok {sd nd : Data} {d : Decision} (h : decideData sd d = some nd) : d.ok = true := by
+theorem opens_good (tid : Nat) : opens (sealer tid) (.good tid) = some tid := by simp [opens]
+
+theorem opens_none_of_ne {v tid : Nat} (h : sealer tid ≠ v) : opens v (.good tid) = none := by simp [opens, h]
+
+/-- what a recorded decision looks like: the new data, that `Add` accepted it, and — for an approval —
+that the deciding service's key opens the stored ticket -/
+theorem decideData_some {v : Nat} {sd nd : Data} {d : Decision} {tid : Nat} (ht : sd.ticket = .good tid)
+    (h : decideData v sd d = some nd) :
+    nd = { sd with resp := respOf tid (some d) } ∧ d.ok = true ∧ (∀ cs, d = .approve cs → sealer tid = v) := by
+  obtain ⟨tk, rs⟩ := sd
+  simp only at ht
+  subst ht
+  cases d with
+  | abort m =>
+    simp only [decideData, Option.some.injEq] at h
+    exact ⟨by rw [← h]; rfl, rfl, by intro cs hc; cases hc⟩
+  | approve cs =>
+    simp only [decideData] at h
+    cases ho : opens v (.good tid) with
+    | none => simp [ho] at h
+    | some t' =>
+      have := opens_some ho
+      obtain ⟨ht', hv⟩ := this
+      cases ht'
+      simp only [ho] at h
+      split at h
+      · cases h
+      · rename_i hr
+        cases h
+        exact ⟨by simp [respOf], by simpa [Decision.ok] using hr, fun _ _ => hv⟩
+
+theorem decideData_some_ok {v : Nat} {sd nd : Data} {d : Decision} (h : decideData v sd d = some nd) : d.ok = true := by
   cases d with
   | abort m => rfl
   | approve cs =>
@@ -281,9 +317,15 @@ theorem decideData_some_ok {sd nd : Data} {d : Decision} (h : decideData sd d = 
       · simp_all [Decision.ok]
     · cases h
 
-theorem decideData_refused (sd : Data) {cs : List Nat} (h : refuses cs = true) : decideData sd (.approve cs) = none := by
+theorem decideData_refused (v : Nat) (sd : Data) {cs : List Nat} (h : refuses cs = true) :
+    decideData v sd (.approve cs) = none := by
   simp only [decideData]
   split <;> simp [h]
+
+/-- an approval at a service whose key does not open the stored ticket is refused -/
+theorem decideData_foreign {v : Nat} {sd : Data} (cs : List Nat) (h : opens v sd.ticket = none) :
+    decideData v sd (.approve cs) = none := by
+  simp [decideData, h]
 
 theorem respOf_isAnswer {tid : Nat} {dec : Option Decision} {r : Resp} (h : respOf tid dec = some r) :
     r.body.isAnswer = true ∧ r.status = 200 := by
@@ -305,16 +347,16 @@ theorem respOf_discharge {tid : Nat} {dec : Option Decision} {st : Nat} {d : Dis
 /-- an event that changes nothing the invariant talks about -/
 def Quiet (a : Action) (o : Out) : Prop :=
   (∀ ps us, decisionOf ps us (a, o) = none) ∧ (∀ tid ps us, ¬ IssuingEv (a, o) tid ps us) ∧
-  (∀ s, a = .poll s → o.delivers = false) ∧ (∀ k, a ≠ .evict k)
+  (∀ v s, a = .poll v s → o.delivers = false) ∧ (∀ k, a ≠ .evict k)
 
 inductive StepCase (st : Store) : Action → Store → Out → Prop
   | quiet {a o} : Quiet a o → StepCase st a st o
   | insert {tid m b} : (b = .pollUrl (st.next + 1) st.next ∨ b = .userUrls (st.next + 1) st.next) →
-      StepCase st (.init (.good tid) m) (st.insert ⟨.good tid, none⟩).1 (.http 201 b true)
-  | decide {r s d a rc nd} : st.addr ⟨r, s⟩ = some a → st.heap[a]? = some rc → decideData rc.data d = some nd →
-      StepCase st (.decide r s d) { st with heap := st.heap.modify a (fun x => { x with data := nd }) } (.api true)
-  | deliver {s a rc rsp} : st.addr (pollKey s) = some a → st.heap[a]? = some rc → rc.data.resp = some rsp →
-      StepCase st (.poll s) (st.remove a) (deliver rsp)
+      StepCase st (.init (sealer tid) (.good tid) m) (st.insert ⟨.good tid, none⟩).1 (.http 201 b true)
+  | decide {v r s d a rc nd} : st.addr ⟨r, s⟩ = some a → st.heap[a]? = some rc → decideData v rc.data d = some nd →
+      StepCase st (.decide v r s d) { st with heap := st.heap.modify a (fun x => { x with data := nd }) } (.api true)
+  | deliver {v s a rc rsp} : st.addr (pollKey s) = some a → st.heap[a]? = some rc → rc.data.resp = some rsp →
+      opens v rc.data.ticket ≠ none → StepCase st (.poll v s) (st.remove a) (deliver rsp)
   | evict {k} : StepCase st (.evict k) (st.evict k) .silent
 
 macro "quiet_tac" : tactic =>
@@ -325,49 +367,50 @@ macro "quiet_tac" : tactic =>
 theorem step_cases' {st : Store} (wf : st.WF) (a : Action) (st' : Store) (o : Out) (h : step st a = (st', o)) :
     StepCase st a st' o := by
   cases a with
-  | init t m =>
-    cases t with
-    | bad n => simp [step] at h; obtain ⟨rfl, rfl⟩ := h; exact .quiet (by quiet_tac)
-    | good tid =>
+  | init v t m =>
+    cases ho : opens v t with
+    | none => simp [step, ho] at h; obtain ⟨rfl, rfl⟩ := h; exact .quiet (by quiet_tac)
+    | some tid =>
+      obtain ⟨rfl, rfl⟩ := opens_some ho
       cases m with
       | immediate cs =>
         by_cases hr : refuses cs = true
-        · simp [step, initGood, hr] at h; obtain ⟨rfl, rfl⟩ := h; exact .quiet (by quiet_tac)
-        · simp [step, initGood, hr] at h; obtain ⟨rfl, rfl⟩ := h; exact .quiet (by quiet_tac)
-      | poll => simp [step, initGood] at h; obtain ⟨rfl, rfl⟩ := h; exact .insert (.inl rfl)
-      | userInteractive => simp [step, initGood] at h; obtain ⟨rfl, rfl⟩ := h; exact .insert (.inr rfl)
-      | refuse s m => simp [step, initGood] at h; obtain ⟨rfl, rfl⟩ := h; exact .quiet (by quiet_tac)
-      | noResponse => simp [step, initGood] at h; obtain ⟨rfl, rfl⟩ := h; exact .quiet (by quiet_tac)
-  | poll s =>
+        · simp [step, ho, initGood, hr] at h; obtain ⟨rfl, rfl⟩ := h; exact .quiet (by quiet_tac)
+        · simp [step, ho, initGood, hr] at h; obtain ⟨rfl, rfl⟩ := h; exact .quiet (by quiet_tac)
+      | poll => simp [step, ho, initGood] at h; obtain ⟨rfl, rfl⟩ := h; exact .insert (.inl rfl)
+      | userInteractive => simp [step, ho, initGood] at h; obtain ⟨rfl, rfl⟩ := h; exact .insert (.inr rfl)
+      | refuse s m => simp [step, ho, initGood] at h; obtain ⟨rfl, rfl⟩ := h; exact .quiet (by quiet_tac)
+      | noResponse => simp [step, ho, initGood] at h; obtain ⟨rfl, rfl⟩ := h; exact .quiet (by quiet_tac)
+  | poll v s =>
     simp only [step] at h
     cases hg : st.get (pollKey s) with
     | none => simp [hg] at h; obtain ⟨rfl, rfl⟩ := h; exact .quiet (by quiet_tac)
     | some sd =>
       obtain ⟨a, rc, ha, hr, hd, _⟩ := wf.get_some hg
-      cases ht : sd.ticket with
-      | bad n => simp [hg, ht] at h; obtain ⟨rfl, rfl⟩ := h; exact .quiet (by quiet_tac)
-      | good tid =>
+      cases ht : opens v sd.ticket with
+      | none => simp [hg, ht] at h; obtain ⟨rfl, rfl⟩ := h; exact .quiet (by quiet_tac)
+      | some tid =>
         cases hrsp : sd.resp with
         | none => simp [hg, ht, hrsp] at h; obtain ⟨rfl, rfl⟩ := h; exact .quiet (by quiet_tac)
         | some rsp =>
           simp [hg, ht, hrsp, Store.delete, ha] at h
           obtain ⟨rfl, rfl⟩ := h
-          exact .deliver ha hr (by rw [hd]; exact hrsp)
-  | userVisit s =>
+          exact .deliver ha hr (by rw [hd]; exact hrsp) (by rw [hd, ht]; simp)
+  | userVisit v s =>
     simp only [step] at h
     cases hg : st.get (userKey s) with
     | none => simp [hg] at h; obtain ⟨rfl, rfl⟩ := h; exact .quiet (by quiet_tac)
     | some sd =>
-      cases ht : sd.ticket with
-      | bad n => simp [hg, ht] at h; obtain ⟨rfl, rfl⟩ := h; exact .quiet (by quiet_tac)
-      | good tid => simp [hg, ht] at h; obtain ⟨rfl, rfl⟩ := h; exact .quiet (by quiet_tac)
-  | decide r s d =>
+      cases ht : opens v sd.ticket with
+      | none => simp [hg, ht] at h; obtain ⟨rfl, rfl⟩ := h; exact .quiet (by quiet_tac)
+      | some tid => simp [hg, ht] at h; obtain ⟨rfl, rfl⟩ := h; exact .quiet (by quiet_tac)
+  | decide v r s d =>
     simp only [step] at h
     cases hg : st.get ⟨r, s⟩ with
     | none => simp [hg] at h; obtain ⟨rfl, rfl⟩ := h; exact .quiet (by quiet_tac)
     | some sd =>
       obtain ⟨a, rc, ha, hr, hd, _⟩ := wf.get_some hg
-      cases hdd : decideData sd d with
+      cases hdd : decideData v sd d with
       | none => simp [hg, hdd] at h; obtain ⟨rfl, rfl⟩ := h; exact .quiet (by quiet_tac)
       | some nd =>
         simp [hg, hdd, Store.update, ha] at h
@@ -392,16 +435,16 @@ theorem Issued_cons {h : Hist} {tid ps us : Nat} {e : Action × Out} (hi : Issue
   · exact .inr ⟨x, hx, hxe⟩
 
 theorem Collected.mono {h : Hist} {ps : Nat} (e : Action × Out) (hc : Collected h ps) : Collected (e :: h) ps := by
-  obtain ⟨o, ho, hd⟩ := hc
-  exact ⟨o, List.mem_cons_of_mem _ ho, hd⟩
+  obtain ⟨v, o, ho, hd⟩ := hc
+  exact ⟨v, o, List.mem_cons_of_mem _ ho, hd⟩
 
 theorem Collected_cons {h : Hist} {ps : Nat} {a : Action} {o : Out} (hc : Collected ((a, o) :: h) ps) :
-    (a = .poll ps ∧ o.delivers = true) ∨ Collected h ps := by
-  obtain ⟨o', ho, hd⟩ := hc
+    ((∃ v, a = .poll v ps) ∧ o.delivers = true) ∨ Collected h ps := by
+  obtain ⟨v, o', ho, hd⟩ := hc
   rcases List.mem_cons.1 ho with he | ho
   · simp only [Prod.mk.injEq] at he
-    exact .inl ⟨he.1.symm, he.2 ▸ hd⟩
-  · exact .inr ⟨o', ho, hd⟩
+    exact .inl ⟨⟨v, he.1.symm⟩, he.2 ▸ hd⟩
+  · exact .inr ⟨v, o', ho, hd⟩
 
 theorem Evicted.mono {h : Hist} {k : Key} (e : Action × Out) (hc : Evicted h k) : Evicted (e :: h) k := by
   obtain ⟨o, ho⟩ := hc
@@ -416,8 +459,8 @@ theorem lastDecision_cons_some {ps us : Nat} {e : Action × Out} {h : Hist} {d :
   simp [lastDecision, hn]
 
 /-- a successful decision through key `flowKey a r` is a decision on flow `a` and on no other -/
-theorem decisionOf_flowKey (a b : Nat) (r : Role) (s : Nat) (d : Decision) (hk : (⟨r, s⟩ : Key) = flowKey a r) :
-    decisionOf (2 * b + 1) (2 * b) (.decide r s d, .api true) = if a = b then some d else none := by
+theorem decisionOf_flowKey (v a b : Nat) (r : Role) (s : Nat) (d : Decision) (hk : (⟨r, s⟩ : Key) = flowKey a r) :
+    decisionOf (2 * b + 1) (2 * b) (.decide v r s d, .api true) = if a = b then some d else none := by
   cases r <;> simp [flowKey] at hk <;> subst hk <;> simp [decisionOf] <;> split <;> split <;> first | rfl | omega
 
 structure Inv (st : Store) (h : Hist) : Prop where
@@ -434,10 +477,10 @@ structure Inv (st : Store) (h : Hist) : Prop where
 theorem Inv.init : Inv Store.empty [] :=
   ⟨Store.WF.empty, by simp [Store.empty], by simp [lastDecision],
    by intro tid ps us ⟨e, he, _⟩; simp at he,
-   by intro a ⟨o, ho, _⟩; simp at ho,
+   by intro a ⟨v, o, ho, _⟩; simp at ho,
    by simp [Store.empty],
    by intro tid a ⟨e, he, _⟩; simp at he,
-   by intro a ⟨o, ho, _⟩; simp at ho⟩
+   by intro a ⟨v, o, ho, _⟩; simp at ho⟩
 
 theorem Inv.next {st : Store} {h : Hist} (inv : Inv st h) {a : Action} {st' : Store} {o : Out}
     (sc : StepCase st a st' o) : Inv st' ((a, o) :: h) := by
@@ -451,8 +494,8 @@ theorem Inv.next {st : Store} {h : Hist} (inv : Inv st h) {a : Action} {st' : St
       · exact absurd hi (q2 _ _ _)
       · exact inv.issued_ticket _ _ hi
     · intro c hc
-      rcases Collected_cons hc with ⟨hp, hd⟩ | hc
-      · rw [q3 _ hp] at hd; exact absurd hd (by simp)
+      rcases Collected_cons hc with ⟨⟨v, hp⟩, hd⟩ | hc
+      · rw [q3 _ _ hp] at hd; exact absurd hd (by simp)
       · rw [lastDecision_cons_none (q1 _ _)]; exact inv.collected_decided c hc
     · intro b r hr
       obtain ⟨tid, h1, h2, h3⟩ := inv.flows b r hr
@@ -463,8 +506,8 @@ theorem Inv.next {st : Store} {h : Hist} (inv : Inv st h) {a : Action} {st' : St
       · exact absurd hi (q2 _ _ _)
       · exact inv.issued _ _ _ hi
     · intro b hc
-      rcases Collected_cons hc with ⟨hp, hd⟩ | hc
-      · rw [q3 _ hp] at hd; exact absurd hd (by simp)
+      rcases Collected_cons hc with ⟨⟨v, hp⟩, hd⟩ | hc
+      · rw [q3 _ _ hp] at hd; exact absurd hd (by simp)
       · exact inv.gone b hc
     · intro b r hb
       rcases inv.live b r hb with hl | hl | hl
@@ -472,10 +515,10 @@ theorem Inv.next {st : Store} {h : Hist} (inv : Inv st h) {a : Action} {st' : St
       · exact .inr (.inl (hl.mono _))
       · exact .inr (.inr (hl.mono _))
   | @insert tid m b hb =>
-    have hdn : ∀ ps us, decisionOf ps us (Action.init (.good tid) m, Out.http 201 b true) = none := by
+    have hdn : ∀ ps us, decisionOf ps us (Action.init (sealer tid) (.good tid) m, Out.http 201 b true) = none := by
       intro ps us; simp [decisionOf]
     have hlen : (st.insert ⟨.good tid, none⟩).1.heap.length = st.heap.length + 1 := by simp [Store.insert]
-    have hnew : Issued ((Action.init (.good tid) m, Out.http 201 b true) :: h) tid (2 * st.heap.length + 1) (2 * st.heap.length) := by
+    have hnew : Issued ((Action.init (sealer tid) (.good tid) m, Out.http 201 b true) :: h) tid (2 * st.heap.length + 1) (2 * st.heap.length) := by
       refine ⟨_, List.mem_cons_self, m, b, rfl, ?_⟩
       rw [← inv.wf.next_eq]; exact hb
     refine ⟨inv.wf.insert _, ?_, ?_, ?_, ?_, ?_, ?_, ?_⟩
@@ -484,7 +527,7 @@ theorem Inv.next {st : Store} {h : Hist} (inv : Inv st h) {a : Action} {st' : St
       rcases Issued_cons hi with hi | hi
       · obtain ⟨m', b', he, hb'⟩ := hi
         simp only [Prod.mk.injEq, Action.init.injEq, Out.http.injEq, Ticket.good.injEq] at he
-        obtain ⟨⟨rfl, _⟩, _, rfl, _⟩ := he
+        obtain ⟨⟨_, rfl, _⟩, _, rfl, _⟩ := he
         have hn := inv.wf.next_eq
         have : c = st.heap.length := by
           rcases hb with rfl | rfl <;> rcases hb' with hb' | hb' <;> simp at hb' <;> omega
@@ -497,7 +540,7 @@ theorem Inv.next {st : Store} {h : Hist} (inv : Inv st h) {a : Action} {st' : St
           · rw [List.getElem?_eq_none hge] at hr; cases hr
         exact ⟨r, by simp only [Store.insert]; rw [List.getElem?_append_left hlt]; exact hr, ht⟩
     · intro c hc
-      rcases Collected_cons hc with ⟨hp, _⟩ | hc
+      rcases Collected_cons hc with ⟨⟨v', hp⟩, _⟩ | hc
       · cases hp
       · rw [lastDecision_cons_none (hdn _ _)]; exact inv.collected_decided c hc
     · intro c r hr
@@ -531,7 +574,7 @@ theorem Inv.next {st : Store} {h : Hist} (inv : Inv st h) {a : Action} {st' : St
       · obtain ⟨c, h1, h2⟩ := inv.issued _ _ _ hi
         exact ⟨c, by omega, h2⟩
     · intro c hc
-      rcases Collected_cons hc with ⟨hp, _⟩ | hc
+      rcases Collected_cons hc with ⟨⟨v', hp⟩, _⟩ | hc
       · cases hp
       · obtain ⟨h1, h2⟩ := inv.gone c hc
         refine ⟨by omega, ?_⟩
@@ -552,15 +595,12 @@ theorem Inv.next {st : Store} {h : Hist} (inv : Inv st h) {a : Action} {st' : St
         refine .inl ?_
         have hn := inv.wf.next_eq
         cases r <;> simp [Store.insert, flowKey, hn]
-  | @decide r s d a0 rc nd ha hr hdd =>
+  | @decide v r s d a0 rc nd ha hr hdd =>
     obtain ⟨ha0, hk⟩ := inv.wf.addr_flowKey ha
     simp only at hk
     obtain ⟨tid0, ht0, hi0, hresp0⟩ := inv.flows a0 rc hr
-    have hnd : nd = { rc.data with resp := respOf tid0 (some d) } := by
-      have := decideData_respOf ht0 d (decideData_some_ok hdd)
-      rw [this] at hdd
-      exact (Option.some.inj hdd).symm
-    have hni : ∀ t ps us, ¬ IssuingEv (Action.decide r s d, Out.api true) t ps us := by
+    have hnd : nd = { rc.data with resp := respOf tid0 (some d) } := (decideData_some ht0 hdd).1
+    have hni : ∀ t ps us, ¬ IssuingEv (Action.decide v r s d, Out.api true) t ps us := by
       intro t ps us ⟨m, b, he, _⟩; simp at he
     refine ⟨inv.wf.modify a0 nd, ?_, ?_, ?_, ?_, ?_, ?_, ?_⟩
     rotate_left 5
@@ -575,13 +615,13 @@ theorem Inv.next {st : Store} {h : Hist} (inv : Inv st h) {a : Action} {st' : St
           exact ⟨{ rc with data := nd }, by simp, by simp [hnd, ht]⟩
         · exact ⟨r0, by simp [hac], ht⟩
     · intro c hc
-      rcases Collected_cons hc with ⟨hp, _⟩ | hc
+      rcases Collected_cons hc with ⟨⟨v', hp⟩, _⟩ | hc
       · cases hp
       · have := inv.collected_decided c hc
         by_cases hac : a0 = c
-        · rw [lastDecision_cons_some (d := d) (by rw [decisionOf_flowKey a0 c r s d hk]; simp [hac])]
+        · rw [lastDecision_cons_some (d := d) (by rw [decisionOf_flowKey v a0 c r s d hk]; simp [hac])]
           simp
-        · rw [lastDecision_cons_none (by rw [decisionOf_flowKey a0 c r s d hk]; simp [hac])]
+        · rw [lastDecision_cons_none (by rw [decisionOf_flowKey v a0 c r s d hk]; simp [hac])]
           exact this
     · intro c r' hr'
       simp only [List.getElem?_modify] at hr'
@@ -600,23 +640,23 @@ theorem Inv.next {st : Store} {h : Hist} (inv : Inv st h) {a : Action} {st' : St
           subst this
           refine ⟨t, ?_, h2.mono _, ?_⟩
           · rw [hnd]; exact h1
-          · rw [lastDecision_cons_some (d := d) (by rw [decisionOf_flowKey a0 a0 r s d hk]; simp)]
+          · rw [lastDecision_cons_some (d := d) (by rw [decisionOf_flowKey v a0 a0 r s d hk]; simp)]
             rw [hnd]
         · simp only [hac, if_false] at hr'
           subst hr'
           refine ⟨t, h1, h2.mono _, ?_⟩
-          rw [lastDecision_cons_none (by rw [decisionOf_flowKey a0 c r s d hk]; simp [hac])]
+          rw [lastDecision_cons_none (by rw [decisionOf_flowKey v a0 c r s d hk]; simp [hac])]
           exact h3
     · intro c hc
       simp only [List.length_modify] at hc
-      rw [lastDecision_cons_none (by rw [decisionOf_flowKey a0 c r s d hk]; simp; omega)]
+      rw [lastDecision_cons_none (by rw [decisionOf_flowKey v a0 c r s d hk]; simp; omega)]
       exact inv.fresh c hc
     · intro t ps us hi
       rcases Issued_cons hi with hi | hi
       · exact absurd hi (hni _ _ _)
       · simpa using inv.issued _ _ _ hi
     · intro c hc
-      rcases Collected_cons hc with ⟨hp, _⟩ | hc
+      rcases Collected_cons hc with ⟨⟨v', hp⟩, _⟩ | hc
       · cases hp
       · simpa using inv.gone c hc
     · intro c r' hc
@@ -625,13 +665,13 @@ theorem Inv.next {st : Store} {h : Hist} (inv : Inv st h) {a : Action} {st' : St
       · exact .inl hl
       · exact .inr (.inl (hl.mono _))
       · exact .inr (.inr (hl.mono _))
-  | @deliver s a0 rc rsp ha hr hrsp =>
+  | @deliver v s a0 rc rsp ha hr hrsp hopen =>
     obtain ⟨ha0, hk⟩ := inv.wf.addr_flowKey ha
     simp only [flowKey] at hk
     have hs : s = 2 * a0 + 1 := by simpa using hk
-    have hdn : ∀ ps us, decisionOf ps us (Action.poll s, deliver rsp) = none := by
+    have hdn : ∀ ps us, decisionOf ps us (Action.poll v s, deliver rsp) = none := by
       intro ps us; simp [decisionOf]
-    have hni : ∀ t ps us, ¬ IssuingEv (Action.poll s, deliver rsp) t ps us := by
+    have hni : ∀ t ps us, ¬ IssuingEv (Action.poll v s, deliver rsp) t ps us := by
       intro t ps us ⟨m, b, he, _⟩; simp at he
     have hheap : (st.remove a0).heap = st.heap := by
       unfold Store.remove; split <;> rfl
@@ -648,9 +688,9 @@ theorem Inv.next {st : Store} {h : Hist} (inv : Inv st h) {a : Action} {st' : St
       · exact inv.issued_ticket _ _ hi
     · intro c hc
       rw [lastDecision_cons_none (hdn _ _)]
-      rcases Collected_cons hc with ⟨hp, _⟩ | hc
+      rcases Collected_cons hc with ⟨⟨v', hp⟩, _⟩ | hc
       · have : c = a0 := by
-          have := Action.poll.inj hp
+          have := (Action.poll.inj hp).2
           omega
         subst this
         intro hnone
@@ -672,9 +712,9 @@ theorem Inv.next {st : Store} {h : Hist} (inv : Inv st h) {a : Action} {st' : St
       · exact inv.issued _ _ _ hi
     · intro c hc
       rw [hheap]
-      rcases Collected_cons hc with ⟨hp, _⟩ | hc
+      rcases Collected_cons hc with ⟨⟨v', hp⟩, _⟩ | hc
       · have : c = a0 := by
-          have := Action.poll.inj hp
+          have := (Action.poll.inj hp).2
           omega
         subst this
         exact ⟨ha0, inv.wf.remove_gone ha0⟩
@@ -684,7 +724,7 @@ theorem Inv.next {st : Store} {h : Hist} (inv : Inv st h) {a : Action} {st' : St
       rw [hheap] at hc
       by_cases hca : c = a0
       · subst hca
-        exact .inr (.inr ⟨deliver rsp, by rw [hs]; exact List.mem_cons_self, hdel⟩)
+        exact .inr (.inr ⟨v, deliver rsp, by rw [hs]; exact List.mem_cons_self, hdel⟩)
       · rcases inv.live c r hc with hl | hl | hl
         · exact .inl (inv.wf.remove_keeps hl hca)
         · exact .inr (.inl (hl.mono _))
@@ -702,7 +742,7 @@ theorem Inv.next {st : Store} {h : Hist} (inv : Inv st h) {a : Action} {st' : St
       · exact inv.issued_ticket _ _ hi
     · intro c hc
       rw [lastDecision_cons_none (hdn _ _)]
-      rcases Collected_cons hc with ⟨hp, _⟩ | hc
+      rcases Collected_cons hc with ⟨⟨v', hp⟩, _⟩ | hc
       · cases hp
       · exact inv.collected_decided c hc
     · intro c r hr'
@@ -716,7 +756,7 @@ theorem Inv.next {st : Store} {h : Hist} (inv : Inv st h) {a : Action} {st' : St
       · exact absurd hi (hni _ _ _)
       · exact inv.issued _ _ _ hi
     · intro c hc
-      rcases Collected_cons hc with ⟨hp, _⟩ | hc
+      rcases Collected_cons hc with ⟨⟨v', hp⟩, _⟩ | hc
       · cases hp
       · obtain ⟨h1, h2⟩ := inv.gone c hc
         exact ⟨h1, fun e he => h2 e (List.mem_filter.1 he).1⟩
@@ -743,22 +783,22 @@ theorem exec_inv (as : List Action) : Inv (exec as).1 (exec as).2 := inv_foldl I
 /-! ### only decisions that `Add` accepts are ever recorded -/
 
 /-- every successful decision of the history is an abort or an approval whose caveats `Add` accepts -/
-def DecOK (h : Hist) : Prop := ∀ r s d, (Action.decide r s d, Out.api true) ∈ h → d.ok = true
+def DecOK (h : Hist) : Prop := ∀ v r s d, (Action.decide v r s d, Out.api true) ∈ h → d.ok = true
 
 theorem decisionOf_some {ps us : Nat} {e : Action × Out} {d : Decision} (h : decisionOf ps us e = some d) :
-    ∃ r s, e = (.decide r s d, .api true) := by
+    ∃ v r s, e = (.decide v r s d, .api true) := by
   unfold decisionOf at h
   split at h
   · split at h
-    · cases h; exact ⟨_, _, rfl⟩
+    · cases h; exact ⟨_, _, _, rfl⟩
     · cases h
   · split at h
-    · cases h; exact ⟨_, _, rfl⟩
+    · cases h; exact ⟨_, _, _, rfl⟩
     · cases h
   · cases h
 
 theorem lastDecision_mem {ps us : Nat} {h : Hist} {d : Decision} (hl : lastDecision ps us h = some d) :
-    ∃ r s, (Action.decide r s d, Out.api true) ∈ h := by
+    ∃ v r s, (Action.decide v r s d, Out.api true) ∈ h := by
   induction h with
   | nil => simp [lastDecision] at hl
   | cons e h ih =>
@@ -766,14 +806,14 @@ theorem lastDecision_mem {ps us : Nat} {h : Hist} {d : Decision} (hl : lastDecis
     split at hl
     · rename_i d' hd'
       cases hl
-      obtain ⟨r, s, rfl⟩ := decisionOf_some hd'
-      exact ⟨r, s, List.mem_cons_self⟩
-    · obtain ⟨r, s, hm⟩ := ih hl
-      exact ⟨r, s, List.mem_cons_of_mem _ hm⟩
+      obtain ⟨v, r, s, rfl⟩ := decisionOf_some hd'
+      exact ⟨v, r, s, List.mem_cons_self⟩
+    · obtain ⟨v, r, s, hm⟩ := ih hl
+      exact ⟨v, r, s, List.mem_cons_of_mem _ hm⟩
 
 /-- in any store state: a decision that is answered `ok` was one `Add` accepts -/
-theorem step_api_true_ok {st : Store} {r : Role} {s : Nat} {d : Decision}
-    (h : (step st (.decide r s d)).2 = .api true) : d.ok = true := by
+theorem step_api_true_ok {st : Store} {v : Nat} {r : Role} {s : Nat} {d : Decision}
+    (h : (step st (.decide v r s d)).2 = .api true) : d.ok = true := by
   simp only [step] at h
   split at h
   · simp at h
@@ -787,40 +827,67 @@ theorem decOK_foldl {c : Store × Hist} (hc : DecOK c.2) (as : List Action) : De
   | nil => exact hc
   | cons a as ih =>
     apply ih
-    intro r s d hm
+    intro v r s d hm
     simp only [stepH] at hm
     rcases List.mem_cons.1 hm with he | hm
     · simp only [Prod.mk.injEq] at he
       obtain ⟨rfl, he⟩ := he
       exact step_api_true_ok he.symm
-    · exact hc r s d hm
+    · exact hc v r s d hm
 
 theorem exec_dec_ok (as : List Action) : DecOK (exec as).2 :=
-  decOK_foldl (c := (Store.empty, [])) (by intro r s d hm; simp at hm) as
+  decOK_foldl (c := (Store.empty, [])) (by intro v r s d hm; simp at hm) as
 
 /-- in any store state an approval whose caveats `Add` refuses returns an error and changes nothing -/
-theorem step_refused_approval (st : Store) (r : Role) (s : Nat) {cs : List Nat} (h : refuses cs = true) :
-    step st (.decide r s (.approve cs)) = (st, .api false) := by
+theorem step_refused_approval (st : Store) (v : Nat) (r : Role) (s : Nat) {cs : List Nat} (h : refuses cs = true) :
+    step st (.decide v r s (.approve cs)) = (st, .api false) := by
   simp only [step]
   split
   · rfl
-  · rw [decideData_refused _ h]
+  · rw [decideData_refused _ _ h]
 
 /-- … and an immediate answer with such caveats is a 500 without a discharge -/
 theorem step_refused_immediate (st : Store) (tid : Nat) {cs : List Nat} (h : refuses cs = true) :
-    step st (.init (.good tid) (.immediate cs)) = (st, .http 500 .internal true) := by
-  simp [step, initGood, h]
+    step st (.init (sealer tid) (.good tid) (.immediate cs)) = (st, .http 500 .internal true) := by
+  simp [step, opens_good, initGood, h]
+
+/-! ### a service whose key does not open the stored ticket -/
+
+/-- in any store state: a poll at a service that cannot open the flow's stored ticket answers 500,
+whether the flow is decided or not, and changes nothing -/
+theorem step_foreign_poll {st : Store} {v s : Nat} {sd : Data} (hg : st.get (pollKey s) = some sd)
+    (ho : opens v sd.ticket = none) : step st (.poll v s) = (st, outInternal) := by
+  simp [step, hg, ho]
+
+theorem step_foreign_userVisit {st : Store} {v s : Nat} {sd : Data} (hg : st.get (userKey s) = some sd)
+    (ho : opens v sd.ticket = none) : step st (.userVisit v s) = (st, outInternal) := by
+  simp [step, hg, ho]
+
+theorem step_foreign_approval {st : Store} {v : Nat} {r : Role} {s : Nat} {sd : Data} (cs : List Nat)
+    (hg : st.get ⟨r, s⟩ = some sd) (ho : opens v sd.ticket = none) :
+    step st (.decide v r s (.approve cs)) = (st, .api false) := by
+  simp [step, hg, decideData_foreign cs ho]
+
+theorem step_foreign_init (st : Store) {v : Nat} {t : Ticket} (m : Mode) (ho : opens v t = none) :
+    step st (.init v t m) = (st, outInternal) := by
+  simp [step, ho]
+
+/-- the same for the poll handler's first store operation: it returns right after its `Get` -/
+theorem micro_foreign_poll {st : Store} {v s : Nat} {sd : Data} (hg : st.get (pollKey s) = some sd)
+    (ho : opens v sd.ticket = none) :
+    micro st (.poll v s) .start = (st, .done outInternal, [.got (pollKey s) (some sd)]) := by
+  simp [micro, hg, ho]
 
 /-! ### consequences of the handler-level invariant -/
 
 theorem step_not_found {st : Store} {a : Action} {k : Key} (hk : a.key? = some k) (hg : st.get k = none) :
     step st a = (st, a.notFoundOut) := by
   cases a with
-  | init t m => simp [Action.key?] at hk
+  | init v t m => simp [Action.key?] at hk
   | evict k' => simp [Action.key?] at hk
-  | poll s => simp [Action.key?] at hk; subst hk; simp [step, hg, Action.notFoundOut]
-  | userVisit s => simp [Action.key?] at hk; subst hk; simp [step, hg, Action.notFoundOut]
-  | decide r s d => simp [Action.key?] at hk; subst hk; simp [step, hg, Action.notFoundOut]
+  | poll v s => simp [Action.key?] at hk; subst hk; simp [step, hg, Action.notFoundOut]
+  | userVisit v s => simp [Action.key?] at hk; subst hk; simp [step, hg, Action.notFoundOut]
+  | decide v r s d => simp [Action.key?] at hk; subst hk; simp [step, hg, Action.notFoundOut]
 
 theorem notFoundOut_silent (a : Action) : a.notFoundOut.appInvoked = false ∧ a.notFoundOut.discharge? = none := by
   cases a <;> simp [Action.notFoundOut, outNotFound, Out.appInvoked, Out.discharge?]
@@ -886,64 +953,70 @@ theorem Inv.poll_live {st : Store} {h : Hist} (inv : Inv st h) {tid ps us : Nat}
 
 theorem Inv.not_ready {st : Store} {h : Hist} (inv : Inv st h) {tid ps us : Nat} (hi : Issued h tid ps us)
     (hne : ¬ Evicted h (pollKey ps)) (hnd : lastDecision ps us h = none) :
-    step st (.poll ps) = (st, outNotReady) := by
+    step st (.poll (sealer tid) ps) = (st, outNotReady) := by
   have hnc : ¬ Collected h ps := by
     intro hc
     obtain ⟨a, _, rfl, rfl⟩ := inv.issued _ _ _ hi
     exact inv.collected_decided a hc hnd
   obtain ⟨a, r, _, _, hg, ht, hresp⟩ := inv.poll_live hi hne hnc
   rw [hnd] at hresp
-  simp [step, hg, ht, hresp, respOf]
+  simp [step, hg, ht, opens_good, hresp, respOf]
 
 theorem Inv.poll_delivers {st : Store} {h : Hist} (inv : Inv st h) {tid ps us : Nat} (hi : Issued h tid ps us)
     (hne : ¬ Evicted h (pollKey ps)) (hnc : ¬ Collected h ps) {d : Decision} (hd : lastDecision ps us h = some d) :
-    ∃ rsp, respOf tid (some d) = some rsp ∧ (step st (.poll ps)).2 = deliver rsp := by
+    ∃ rsp, respOf tid (some d) = some rsp ∧ (step st (.poll (sealer tid) ps)).2 = deliver rsp := by
   obtain ⟨a, r, haddr, _, hg, ht, hresp⟩ := inv.poll_live hi hne hnc
   rw [hd] at hresp
   cases d with
-  | approve cs => exact ⟨_, rfl, by simp [step, hg, ht, hresp, respOf, Store.delete, haddr]⟩
-  | abort m => exact ⟨_, rfl, by simp [step, hg, ht, hresp, respOf, Store.delete, haddr]⟩
+  | approve cs => exact ⟨_, rfl, by simp [step, hg, ht, opens_good, hresp, respOf, Store.delete, haddr]⟩
+  | abort m => exact ⟨_, rfl, by simp [step, hg, ht, opens_good, hresp, respOf, Store.delete, haddr]⟩
 
 theorem Inv.discharge_justified {st : Store} {h : Hist} (inv : Inv st h) (hok : DecOK h) {a : Action} {d : Discharge}
     (hd : (step st a).2.discharge? = some d) :
-    (∃ cs, a = .init (.good d.ticket) (.immediate cs) ∧ refuses cs = false ∧ d = mkDischarge d.ticket cs) ∨
-    (∃ ps us cs, a = .poll ps ∧ Issued h d.ticket ps us ∧ lastDecision ps us h = some (.approve cs) ∧
-      refuses cs = false ∧ d = mkDischarge d.ticket cs) := by
+    (∃ cs, a = .init (sealer d.ticket) (.good d.ticket) (.immediate cs) ∧ refuses cs = false ∧ d = mkDischarge d.ticket cs) ∨
+    (∃ ps us cs, a = .poll (sealer d.ticket) ps ∧ Issued h d.ticket ps us ∧
+      lastDecision ps us h = some (.approve cs) ∧ refuses cs = false ∧ d = mkDischarge d.ticket cs) := by
   cases a with
-  | init t m =>
-    cases t with
-    | bad n => simp [step, outInternal, Out.discharge?] at hd
-    | good tid =>
+  | init v t m =>
+    cases ho : opens v t with
+    | none => simp [step, ho, outInternal, Out.discharge?] at hd
+    | some tid =>
+      obtain ⟨rfl, rfl⟩ := opens_some ho
       cases m with
       | immediate cs =>
         by_cases hr : refuses cs = true
-        · simp [step, initGood, Out.discharge?, hr] at hd
-        · simp [step, initGood, Out.discharge?, hr] at hd
+        · simp [step, ho, initGood, Out.discharge?, hr] at hd
+        · simp [step, ho, initGood, Out.discharge?, hr] at hd
           subst hd
           exact .inl ⟨cs, rfl, by simpa using hr, rfl⟩
-      | poll => simp [step, initGood, Out.discharge?] at hd
-      | userInteractive => simp [step, initGood, Out.discharge?] at hd
-      | refuse s m => simp [step, initGood, Out.discharge?] at hd
-      | noResponse => simp [step, initGood, Out.discharge?] at hd
-  | poll s =>
+      | poll => simp [step, ho, initGood, Out.discharge?] at hd
+      | userInteractive => simp [step, ho, initGood, Out.discharge?] at hd
+      | refuse s m => simp [step, ho, initGood, Out.discharge?] at hd
+      | noResponse => simp [step, ho, initGood, Out.discharge?] at hd
+  | poll v s =>
     right
-    have sc := step_cases inv.wf (.poll s)
-    generalize (step st (.poll s)).1 = st' at sc
-    generalize (step st (.poll s)).2 = o at sc hd
+    have sc := step_cases inv.wf (.poll v s)
+    generalize (step st (.poll v s)).1 = st' at sc
+    generalize (step st (.poll v s)).2 = o at sc hd
     cases sc with
     | quiet hq =>
-      have := hq.2.2.1 s rfl
+      have := hq.2.2.1 v s rfl
       cases o with
       | http st b app =>
         cases b <;> simp [Out.discharge?] at hd
         simp [Out.delivers, Body.isAnswer] at this
       | api ok => simp [Out.discharge?] at hd
       | silent => simp [Out.discharge?] at hd
-    | @deliver _ a0 rc rsp ha hr hrsp =>
+    | @deliver _ _ a0 rc rsp ha hr hrsp hopen =>
       obtain ⟨_, hk⟩ := inv.wf.addr_flowKey ha
       simp [flowKey] at hk
       subst hk
-      obtain ⟨tid, _, hi, hresp⟩ := inv.flows a0 rc hr
+      obtain ⟨tid, htk, hi, hresp⟩ := inv.flows a0 rc hr
+      have hv : sealer tid = v := by
+        rw [htk] at hopen
+        rcases Nat.decEq (sealer tid) v with hne | heq
+        · exact absurd (opens_none_of_ne hne) hopen
+        · exact heq
       rw [hrsp] at hresp
       obtain ⟨rst, rb⟩ := rsp
       simp [deliver, Out.discharge?] at hd
@@ -952,15 +1025,15 @@ theorem Inv.discharge_justified {st : Store} {h : Hist} (inv : Inv st h) (hok : 
       obtain ⟨cs, hl, hdd⟩ := respOf_discharge hresp.symm
       have ht : d.ticket = tid := by rw [← hd, hdd]; rfl
       rw [ht]
-      obtain ⟨r', s', hm⟩ := lastDecision_mem hl
-      have hcs : refuses cs = false := by simpa [Decision.ok] using hok _ _ _ hm
-      exact ⟨_, _, cs, rfl, hi, hl, hcs, by rw [← hd]; exact hdd⟩
-  | userVisit s =>
+      obtain ⟨v', r', s', hm⟩ := lastDecision_mem hl
+      have hcs : refuses cs = false := by simpa [Decision.ok] using hok _ _ _ _ hm
+      exact ⟨_, _, cs, by rw [hv], hi, hl, hcs, by rw [← hd]; exact hdd⟩
+  | userVisit v s =>
     simp only [step] at hd
     split at hd
     · simp [outNotFound, Out.discharge?] at hd
     · split at hd <;> simp [outInternal, Out.discharge?] at hd
-  | decide r s dd =>
+  | decide v r s dd =>
     simp only [step] at hd
     split at hd
     · simp [Out.discharge?] at hd
@@ -979,15 +1052,15 @@ def Ev.thread? : Ev → Option Nat
 
 /-- some `init` handler on ticket `good tid` executed the `Insert` that drew `us`, `ps` -/
 def InsertedT (tr : Trace) (tid ps us : Nat) : Prop :=
-  ∃ i m, Ev.op i (.init (.good tid) m) (.inserted (.good tid) us ps) ∈ tr
+  ∃ i m, Ev.op i (.init (sealer tid) (.good tid) m) (.inserted (.good tid) us ps) ∈ tr
 
 def InsertedKey (tr : Trace) (k : Key) : Prop :=
   ∃ tid ps us, InsertedT tr tid ps us ∧ (k = pollKey ps ∨ k = userKey us)
 
 /-- a successful `Update` executed by a `Discharge*`/`Abort*` call on the flow `(ps, us)` -/
 def decisionOfEv (ps us : Nat) : Ev → Option Decision
-  | .op _ (.decide .poll s d) (.updated _ _ true) => if s = ps then some d else none
-  | .op _ (.decide .user s d) (.updated _ _ true) => if s = us then some d else none
+  | .op _ (.decide _ .poll s d) (.updated _ _ true) => if s = ps then some d else none
+  | .op _ (.decide _ .user s d) (.updated _ _ true) => if s = us then some d else none
   | _ => none
 
 /-- the decision whose `Update` on the flow `(ps, us)` was executed last -/
@@ -1002,8 +1075,8 @@ def lastDecisionT (ps us : Nat) : Trace → Option Decision
 `init` on that very ticket, or a poll whose `Get` saw, as the latest decision on the flow that an
 `init` on that ticket inserted, an approval with exactly these caveats -/
 def DischargeJust (tr : Trace) (i : Nat) (act : Action) (d : Discharge) : Prop :=
-  (∃ cs, act = .init (.good d.ticket) (.immediate cs) ∧ refuses cs = false ∧ d = mkDischarge d.ticket cs) ∨
-  (∃ ps us cs pre data, act = .poll ps ∧
+  (∃ cs, act = .init (sealer d.ticket) (.good d.ticket) (.immediate cs) ∧ refuses cs = false ∧ d = mkDischarge d.ticket cs) ∨
+  (∃ ps us cs pre data, act = .poll (sealer d.ticket) ps ∧
     (Ev.op i act (.got (pollKey ps) (some data)) :: pre) <:+ tr ∧
     InsertedT pre d.ticket ps us ∧ lastDecisionT ps us pre = some (.approve cs) ∧ refuses cs = false ∧
     d = mkDischarge d.ticket cs)
@@ -1059,27 +1132,27 @@ structure SInv (st : Store) (tr : Trace) : Prop where
   fresh : ∀ a, st.heap.length ≤ a → lastDecisionT (2 * a + 1) (2 * a) tr = none
   issued : ∀ tid ps us, InsertedT tr tid ps us → ∃ a, a < st.heap.length ∧ ps = 2 * a + 1 ∧ us = 2 * a
   gone : ∀ i act a, Ev.op i act (.removed a) ∈ tr → a < st.heap.length ∧ ∀ e ∈ st.keys, e.2 ≠ a
-  upd_ok : ∀ i r s d k nd, Ev.op i (.decide r s d) (.updated k nd true) ∈ tr → d.ok = true
+  upd_ok : ∀ i v r s d k nd, Ev.op i (.decide v r s d) (.updated k nd true) ∈ tr → d.ok = true
 
 theorem SInv.init : SInv Store.empty [] :=
   ⟨Store.WF.empty, by simp [Store.empty], by simp [lastDecisionT],
    by intro tid ps us ⟨i, m, h⟩; simp at h, by intro i act a h; simp at h,
-   by intro i r s d k nd h; simp at h⟩
+   by intro i v r s d k nd h; simp at h⟩
 
 theorem decisionOfEv_some {ps us : Nat} {e : Ev} {d : Decision} (h : decisionOfEv ps us e = some d) :
-    ∃ i r s k nd, e = .op i (.decide r s d) (.updated k nd true) := by
+    ∃ i v r s k nd, e = .op i (.decide v r s d) (.updated k nd true) := by
   unfold decisionOfEv at h
   split at h
   · split at h
-    · cases h; exact ⟨_, _, _, _, _, rfl⟩
+    · cases h; exact ⟨_, _, _, _, _, _, rfl⟩
     · cases h
   · split at h
-    · cases h; exact ⟨_, _, _, _, _, rfl⟩
+    · cases h; exact ⟨_, _, _, _, _, _, rfl⟩
     · cases h
   · cases h
 
 theorem lastDecisionT_mem {ps us : Nat} {tr : Trace} {d : Decision} (hl : lastDecisionT ps us tr = some d) :
-    ∃ i r s k nd, Ev.op i (.decide r s d) (.updated k nd true) ∈ tr := by
+    ∃ i v r s k nd, Ev.op i (.decide v r s d) (.updated k nd true) ∈ tr := by
   induction tr with
   | nil => simp [lastDecisionT] at hl
   | cons e tr ih =>
@@ -1087,10 +1160,10 @@ theorem lastDecisionT_mem {ps us : Nat} {tr : Trace} {d : Decision} (hl : lastDe
     split at hl
     · rename_i d' hd'
       cases hl
-      obtain ⟨i, r, s, k, nd, rfl⟩ := decisionOfEv_some hd'
-      exact ⟨i, r, s, k, nd, List.mem_cons_self⟩
-    · obtain ⟨i, r, s, k, nd, hm⟩ := ih hl
-      exact ⟨i, r, s, k, nd, List.mem_cons_of_mem _ hm⟩
+      obtain ⟨i, v, r, s, k, nd, rfl⟩ := decisionOfEv_some hd'
+      exact ⟨i, v, r, s, k, nd, List.mem_cons_self⟩
+    · obtain ⟨i, v, r, s, k, nd, hm⟩ := ih hl
+      exact ⟨i, v, r, s, k, nd, List.mem_cons_of_mem _ hm⟩
 
 /-- neutral events, store unchanged up to dropped keys -/
 theorem SInv.quiet {st st' : Store} {tr : Trace} (inv : SInv st tr) (evs : List Ev)
@@ -1098,10 +1171,10 @@ theorem SInv.quiet {st st' : Store} {tr : Trace} (inv : SInv st tr) (evs : List 
     (hkeys : ∀ e ∈ st'.keys, e ∈ st.keys) : SInv st' (evs ++ tr) := by
   refine ⟨hwf, ?_, ?_, ?_, ?_, ?_⟩
   rotate_left 4
-  · intro i r s d k nd hm
+  · intro i v r s d k nd hm
     rcases List.mem_append.1 hm with hm | hm
     · have := hn _ hm; simp [Ev.neutral] at this
-    · exact inv.upd_ok i r s d k nd hm
+    · exact inv.upd_ok i v r s d k nd hm
   · intro a r hr
     rw [hheap] at hr
     obtain ⟨tid, h1, h2, h3⟩ := inv.flows a r hr
@@ -1121,16 +1194,16 @@ theorem SInv.quiet {st st' : Store} {tr : Trace} (inv : SInv st tr) (evs : List 
 
 theorem SInv.insert {st : Store} {tr : Trace} (inv : SInv st tr) (i tid : Nat) (m : Mode) :
     SInv (st.insert ⟨.good tid, none⟩).1
-      (Ev.op i (.init (.good tid) m) (.inserted (.good tid) st.next (st.next + 1)) :: tr) := by
-  have hdn : ∀ ps us, decisionOfEv ps us (Ev.op i (.init (.good tid) m) (.inserted (.good tid) st.next (st.next + 1))) = none := by
+      (Ev.op i (.init (sealer tid) (.good tid) m) (.inserted (.good tid) st.next (st.next + 1)) :: tr) := by
+  have hdn : ∀ ps us, decisionOfEv ps us (Ev.op i (.init (sealer tid) (.good tid) m) (.inserted (.good tid) st.next (st.next + 1))) = none := by
     intro ps us; simp [decisionOfEv]
   have hn := inv.wf.next_eq
   refine ⟨inv.wf.insert _, ?_, ?_, ?_, ?_, ?_⟩
   rotate_left 4
-  · intro j r s d k nd hm
+  · intro j v r s d k nd hm
     rcases List.mem_cons.1 hm with he | hm
     · simp at he
-    · exact inv.upd_ok j r s d k nd hm
+    · exact inv.upd_ok j v r s d k nd hm
   · intro c r hr
     simp only [Store.insert] at hr
     rw [List.getElem?_append] at hr
@@ -1170,27 +1243,27 @@ theorem SInv.insert {st : Store} {tr : Trace} (inv : SInv st tr) (i tid : Nat) (
       · simp; omega
       · exact h2 e he
 
-theorem decisionOfEv_flowKey (i a b : Nat) (r : Role) (s : Nat) (d : Decision) (k : Key) (nd : Data)
+theorem decisionOfEv_flowKey (i v a b : Nat) (r : Role) (s : Nat) (d : Decision) (k : Key) (nd : Data)
     (hk : (⟨r, s⟩ : Key) = flowKey a r) :
-    decisionOfEv (2 * b + 1) (2 * b) (.op i (.decide r s d) (.updated k nd true)) = if a = b then some d else none := by
+    decisionOfEv (2 * b + 1) (2 * b) (.op i (.decide v r s d) (.updated k nd true)) = if a = b then some d else none := by
   cases r <;> simp [flowKey] at hk <;> subst hk <;> simp [decisionOfEv] <;> split <;> split <;> first | rfl | omega
 
-theorem SInv.update {st : Store} {tr : Trace} (inv : SInv st tr) (i : Nat) (r : Role) (s : Nat) (d : Decision)
+theorem SInv.update {st : Store} {tr : Trace} (inv : SInv st tr) (i v : Nat) (r : Role) (s : Nat) (d : Decision)
     (a0 tid0 : Nat) (rc : Rec) (k : Key) (ha : st.addr k = some a0) (hk : k = ⟨r, s⟩)
     (hr : st.heap[a0]? = some rc) (ht0 : rc.data.ticket = .good tid0) (hok : d.ok = true) :
     SInv { st with heap := st.heap.modify a0 (fun x => { x with data := ⟨.good tid0, respOf tid0 (some d)⟩ }) }
-      (Ev.op i (.decide r s d) (.updated k ⟨.good tid0, respOf tid0 (some d)⟩ true) :: tr) := by
+      (Ev.op i (.decide v r s d) (.updated k ⟨.good tid0, respOf tid0 (some d)⟩ true) :: tr) := by
   subst hk
   obtain ⟨ha0, hkf⟩ := inv.wf.addr_flowKey ha
   simp only at hkf
   refine ⟨inv.wf.modify a0 _, ?_, ?_, ?_, ?_, ?_⟩
   rotate_left 4
-  · intro j r' s' d' k' nd' hm
+  · intro j v' r' s' d' k' nd' hm
     rcases List.mem_cons.1 hm with he | hm
     · simp only [Ev.op.injEq, Action.decide.injEq] at he
-      obtain ⟨_, ⟨_, _, rfl⟩, _⟩ := he
+      obtain ⟨_, ⟨_, _, _, rfl⟩, _⟩ := he
       exact hok
-    · exact inv.upd_ok j r' s' d' k' nd' hm
+    · exact inv.upd_ok j v' r' s' d' k' nd' hm
   · intro c r' hr'
     simp only [List.getElem?_modify] at hr'
     cases hc : st.heap[c]? with
@@ -1208,16 +1281,16 @@ theorem SInv.update {st : Store} {tr : Trace} (inv : SInv st tr) (i : Nat) (r : 
         · have : t = tid0 := by rw [h1] at ht0; exact Ticket.good.inj ht0
           subst this
           exact h2.mono [_]
-        · simp only [lastDecisionT, decisionOfEv_flowKey i a0 a0 r s d _ _ hkf, if_true]
+        · simp only [lastDecisionT, decisionOfEv_flowKey i v a0 a0 r s d _ _ hkf, if_true]
       · simp only [hac, if_false] at hr'
         subst hr'
         refine ⟨t, h1, h2.mono [_], ?_⟩
-        simp only [lastDecisionT, decisionOfEv_flowKey i a0 c r s d _ _ hkf, hac, if_false]
+        simp only [lastDecisionT, decisionOfEv_flowKey i v a0 c r s d _ _ hkf, hac, if_false]
         exact h3
   · intro c hc
     simp only [List.length_modify] at hc
     have : a0 ≠ c := by omega
-    simp only [lastDecisionT, decisionOfEv_flowKey i a0 c r s d _ _ hkf, this, if_false]
+    simp only [lastDecisionT, decisionOfEv_flowKey i v a0 c r s d _ _ hkf, this, if_false]
     exact inv.fresh c hc
   · intro t ps us ⟨j, m', hm⟩
     simp only [List.length_modify]
@@ -1238,10 +1311,10 @@ theorem SInv.remove {st : Store} {tr : Trace} (inv : SInv st tr) (i : Nat) (act 
     unfold Store.remove; split <;> rfl
   refine ⟨inv.wf.remove a0, ?_, ?_, ?_, ?_, ?_⟩
   rotate_left 4
-  · intro j r s d k nd hm
+  · intro j v r s d k nd hm
     rcases List.mem_cons.1 hm with he | hm
     · simp at he
-    · exact inv.upd_ok j r s d k nd hm
+    · exact inv.upd_ok j v r s d k nd hm
   · intro c r hr
     rw [hheap] at hr
     obtain ⟨t, h1, h2, h3⟩ := inv.flows c r hr
@@ -1267,16 +1340,16 @@ theorem SInv.remove {st : Store} {tr : Trace} (inv : SInv st tr) (i : Nat) (act 
 /-! #### the thread part -/
 
 /-- what a poll handler knows about the response it copied from the store -/
-def PollJust (tr : Trace) (i : Nat) (s : Nat) (r : Resp) : Prop :=
-  InsertedKey tr (pollKey s) ∧ ∀ d, r.body = .discharge d → DischargeJust tr i (.poll s) d
+def PollJust (tr : Trace) (i : Nat) (v s : Nat) (r : Resp) : Prop :=
+  InsertedKey tr (pollKey s) ∧ ∀ d, r.body = .discharge d → DischargeJust tr i (.poll v s) d
 
 /-- local variables of a pending handler are justified by the trace -/
 def TInv (st : Store) (tr : Trace) (i : Nat) (th : Thread) : Prop :=
   match th.pc with
   | .start => True
-  | .pollDelete s r => th.act = .poll s ∧ PollJust tr i s r
-  | .pollRemove s a r => th.act = .poll s ∧ PollJust tr i s r ∧ s = 2 * a + 1 ∧ a < st.heap.length
-  | .update k nd => ∃ r s d a tid rc, th.act = .decide r s d ∧ k = ⟨r, s⟩ ∧ k = flowKey a r ∧
+  | .pollDelete s r => ∃ v, th.act = .poll v s ∧ PollJust tr i v s r
+  | .pollRemove s a r => ∃ v, th.act = .poll v s ∧ PollJust tr i v s r ∧ s = 2 * a + 1 ∧ a < st.heap.length
+  | .update k nd => ∃ v r s d a tid rc, th.act = .decide v r s d ∧ k = ⟨r, s⟩ ∧ k = flowKey a r ∧
       st.heap[a]? = some rc ∧ rc.data.ticket = .good tid ∧ nd = ⟨.good tid, respOf tid (some d)⟩ ∧ d.ok = true
   | .done _ => True
 
@@ -1284,8 +1357,8 @@ def TInv (st : Store) (tr : Trace) (i : Nat) (th : Thread) : Prop :=
 def RetOK (tr : Trace) (i : Nat) (a : Action) (o : Out) : Prop :=
   (∀ d, o.discharge? = some d → DischargeJust tr i a d) ∧
   (∀ k, a.key? = some k → o = a.notFoundOut ∨ InsertedKey tr k) ∧
-  (∀ s, a = .poll s → o.delivers = true → ∃ adr j act, s = 2 * adr + 1 ∧ Ev.op j act (.removed adr) ∈ tr) ∧
-  (∀ r s cs, a = .decide r s (.approve cs) → refuses cs = true → o = .api false)
+  (∀ v s, a = .poll v s → o.delivers = true → ∃ adr j act, s = 2 * adr + 1 ∧ Ev.op j act (.removed adr) ∈ tr) ∧
+  (∀ v r s cs, a = .decide v r s (.approve cs) → refuses cs = true → o = .api false)
 
 /-- records are never reclaimed and keep their ticket -/
 def StoreLe (st st' : Store) : Prop :=
@@ -1296,8 +1369,8 @@ def StoreLe (st st' : Store) : Prop :=
 theorem StoreLe.of_heap_eq {st st' : Store} (h : st'.heap = st.heap) : StoreLe st st' :=
   ⟨by rw [h]; exact Nat.le_refl _, fun a rc tid hr ht => ⟨rc, by rw [h]; exact hr, ht⟩⟩
 
-theorem PollJust.mono {tr : Trace} {i s : Nat} {r : Resp} (evs : List Ev) (h : PollJust tr i s r) :
-    PollJust (evs ++ tr) i s r :=
+theorem PollJust.mono {tr : Trace} {i v s : Nat} {r : Resp} (evs : List Ev) (h : PollJust tr i v s r) :
+    PollJust (evs ++ tr) i v s r :=
   ⟨h.1.mono evs, fun d hd => (h.2 d hd).mono evs⟩
 
 theorem TInv.mono {st st' : Store} {tr : Trace} {i : Nat} {th : Thread} (evs : List Ev) (hle : StoreLe st st')
@@ -1305,21 +1378,25 @@ theorem TInv.mono {st st' : Store} {tr : Trace} {i : Nat} {th : Thread} (evs : L
   unfold TInv at h ⊢
   split
   · trivial
-  · rename_i hpc; rw [hpc] at h; exact ⟨h.1, h.2.mono evs⟩
-  · rename_i hpc; rw [hpc] at h; exact ⟨h.1, h.2.1.mono evs, h.2.2.1, Nat.lt_of_lt_of_le h.2.2.2 hle.1⟩
   · rename_i hpc; rw [hpc] at h
-    obtain ⟨r, s, d, a, tid, rc, h1, h2, h3, h4, h5, h6⟩ := h
+    obtain ⟨v, h1, h2⟩ := h
+    exact ⟨v, h1, h2.mono evs⟩
+  · rename_i hpc; rw [hpc] at h
+    obtain ⟨v, h1, h2, h3, h4⟩ := h
+    exact ⟨v, h1, h2.mono evs, h3, Nat.lt_of_lt_of_le h4 hle.1⟩
+  · rename_i hpc; rw [hpc] at h
+    obtain ⟨v, r, s, d, a, tid, rc, h1, h2, h3, h4, h5, h6⟩ := h
     obtain ⟨rc', h7, h8⟩ := hle.2 a rc tid h4 h5
-    exact ⟨r, s, d, a, tid, rc', h1, h2, h3, h7, h8, h6⟩
+    exact ⟨v, r, s, d, a, tid, rc', h1, h2, h3, h7, h8, h6⟩
   · trivial
 
 theorem RetOK.mono {tr : Trace} {i : Nat} {a : Action} {o : Out} (evs : List Ev) (h : RetOK tr i a o) :
     RetOK (evs ++ tr) i a o := by
-  refine ⟨fun d hd => (h.1 d hd).mono evs, fun k hk => ?_, fun s hs hd => ?_, h.2.2.2⟩
+  refine ⟨fun d hd => (h.1 d hd).mono evs, fun k hk => ?_, fun v s hs hd => ?_, h.2.2.2⟩
   · rcases h.2.1 k hk with h | h
     · exact .inl h
     · exact .inr (h.mono evs)
-  · obtain ⟨adr, j, act, h1, h2⟩ := h.2.2.1 s hs hd
+  · obtain ⟨adr, j, act, h1, h2⟩ := h.2.2.1 v s hs hd
     exact ⟨adr, j, act, h1, List.mem_append_right _ h2⟩
 
 structure TPart (S : Sys) (tr : Trace) : Prop where
@@ -1384,12 +1461,12 @@ theorem FInv.step_thread {S : Sys} {tr : Trace} (inv : FInv S tr) {i : Nat} {th 
 
 theorem retOK_simple {tr : Trace} {i : Nat} {a : Action} {o : Out} (hd : o.discharge? = none)
     (hk : ∀ k, a.key? = some k → o = a.notFoundOut ∨ InsertedKey tr k)
-    (hp : ∀ s, a = .poll s → o.delivers = false)
-    (hr : ∀ r s cs, a = .decide r s (.approve cs) → refuses cs = true → o = .api false := by simp) :
+    (hp : ∀ v s, a = .poll v s → o.delivers = false)
+    (hr : ∀ v r s cs, a = .decide v r s (.approve cs) → refuses cs = true → o = .api false := by simp) :
     RetOK tr i a o := by
   refine ⟨?_, hk, ?_, hr⟩
   · intro d h; rw [hd] at h; cases h
-  · intro s hs h; rw [hp s hs] at h; cases h
+  · intro v s hs h; rw [hp v s hs] at h; cases h
 
 /-- what a successful `Get` tells, by the invariant -/
 theorem SInv.of_get {st : Store} {tr : Trace} (inv : SInv st tr) {k : Key} {sd : Data} (hg : st.get k = some sd) :
@@ -1484,20 +1561,21 @@ theorem micro_inv {S : Sys} {tr : Trace} (inv : FInv S tr) {i : Nat} {act : Acti
   | done o => exact absurd rfl (hnd o)
   | start =>
     cases act with
-    | init t m =>
-      cases t with
-      | bad n =>
-        simp [micro] at hm
+    | init v t m =>
+      cases ho : opens v t with
+      | none =>
+        simp [micro, ho] at hm
         obtain ⟨rfl, rfl, rfl⟩ := hm
         exact inv.quiet_return hi _ [] (by simp) (retOK_simple rfl (by simp [Action.key?]) (by simp))
-      | good tid =>
+      | some tid =>
+        obtain ⟨rfl, rfl⟩ := opens_some ho
         cases m with
         | immediate cs =>
           by_cases hrf : refuses cs = true
-          · simp [micro, initGood, hrf] at hm
+          · simp [micro, ho, initGood, hrf] at hm
             obtain ⟨rfl, rfl, rfl⟩ := hm
             exact inv.quiet_return hi _ [] (by simp) (retOK_simple rfl (by simp [Action.key?]) (by simp))
-          · simp [micro, initGood, hrf] at hm
+          · simp [micro, ho, initGood, hrf] at hm
             obtain ⟨rfl, rfl, rfl⟩ := hm
             refine inv.quiet_return hi _ [] (by simp) ⟨?_, by simp [Action.key?], by simp, by simp⟩
             intro d hd
@@ -1505,18 +1583,18 @@ theorem micro_inv {S : Sys} {tr : Trace} (inv : FInv S tr) {i : Nat} {act : Acti
             subst hd
             exact .inl ⟨cs, rfl, by simpa using hrf, rfl⟩
         | refuse st m =>
-          simp [micro, initGood] at hm
+          simp [micro, ho, initGood] at hm
           obtain ⟨rfl, rfl, rfl⟩ := hm
           exact inv.quiet_return hi _ [] (by simp) (retOK_simple rfl (by simp [Action.key?]) (by simp))
         | noResponse =>
-          simp [micro, initGood] at hm
+          simp [micro, ho, initGood] at hm
           obtain ⟨rfl, rfl, rfl⟩ := hm
           exact inv.quiet_return hi _ [] (by simp) (retOK_simple rfl (by simp [Action.key?]) (by simp))
         | poll =>
-          simp [micro] at hm
+          simp [micro, ho] at hm
           obtain ⟨rfl, rfl, rfl⟩ := hm
           have hs1 := inv.s.insert i tid .poll
-          have hs2 := hs1.quiet [.returned i (.init (.good tid) .poll) (.http 201 (.pollUrl (S.store.next + 1) S.store.next) true)]
+          have hs2 := hs1.quiet [.returned i (.init (sealer tid) (.good tid) .poll) (.http 201 (.pollUrl (S.store.next + 1) S.store.next) true)]
             (by simp [Ev.neutral]) hs1.wf rfl (fun _ h => h)
           exact inv.step_thread hi _ _ [_, _] hs2 (StoreLe.insert _ _) (by simp [Ev.thread?]) trivial
             (by
@@ -1525,10 +1603,10 @@ theorem micro_inv {S : Sys} {tr : Trace} (inv : FInv S tr) {i : Nat} {act : Acti
               obtain ⟨rfl, rfl, rfl⟩ := hmem
               exact retOK_simple rfl (by simp [Action.key?]) (by simp))
         | userInteractive =>
-          simp [micro] at hm
+          simp [micro, ho] at hm
           obtain ⟨rfl, rfl, rfl⟩ := hm
           have hs1 := inv.s.insert i tid .userInteractive
-          have hs2 := hs1.quiet [.returned i (.init (.good tid) .userInteractive) (.http 201 (.userUrls (S.store.next + 1) S.store.next) true)]
+          have hs2 := hs1.quiet [.returned i (.init (sealer tid) (.good tid) .userInteractive) (.http 201 (.userUrls (S.store.next + 1) S.store.next) true)]
             (by simp [Ev.neutral]) hs1.wf rfl (fun _ h => h)
           exact inv.step_thread hi _ _ [_, _] hs2 (StoreLe.insert _ _) (by simp [Ev.thread?]) trivial
             (by
@@ -1540,7 +1618,7 @@ theorem micro_inv {S : Sys} {tr : Trace} (inv : FInv S tr) {i : Nat} {act : Acti
       simp [micro] at hm
       obtain ⟨rfl, rfl, rfl⟩ := hm
       exact inv.quiet_return hi _ [] (by simp) (retOK_simple rfl (by simp [Action.key?]) (by simp))
-    | poll s =>
+    | poll v s =>
       simp only [micro] at hm
       cases hg : S.store.get (pollKey s) with
       | none =>
@@ -1550,33 +1628,45 @@ theorem micro_inv {S : Sys} {tr : Trace} (inv : FInv S tr) {i : Nat} {act : Acti
           (retOK_simple rfl (by simp [Action.key?, Action.notFoundOut]) (by simp [outNotFound, Out.delivers, Body.isAnswer]))
       | some sd =>
         obtain ⟨a, r, tid, ha, hr, hd, hk, ht, hins, hresp, hik⟩ := inv.s.of_get hg
-        cases hrsp : sd.resp with
+        cases hop : opens v sd.ticket with
         | none =>
-          simp [hg, ht, hrsp] at hm
+          simp [hg, hop] at hm
           obtain ⟨rfl, rfl, rfl⟩ := hm
           exact inv.quiet_return hi _ [_] (by simp [Ev.neutral])
             (retOK_simple rfl (by simp [Action.key?]; exact .inr (hik.mono [_, _]))
-              (by simp [outNotReady, Out.delivers, Body.isAnswer]))
-        | some rsp =>
-          simp [hg, ht, hrsp] at hm
-          obtain ⟨rfl, rfl, rfl⟩ := hm
-          refine inv.quiet_move hi _ [_] rfl (by simp [Ev.neutral]) ⟨rfl, hik.mono _, ?_⟩
-          intro d hbd
-          simp [flowKey] at hk
-          subst hk
-          rw [hrsp] at hresp
-          obtain ⟨rst, rb⟩ := rsp
-          simp only at hbd
-          subst hbd
-          obtain ⟨cs, hl, hdd⟩ := respOf_discharge hresp.symm
-          have htk : d.ticket = tid := by rw [hdd]; rfl
-          obtain ⟨i', r', s', k', nd', hmem⟩ := lastDecisionT_mem hl
-          have hcs : refuses cs = false := by simpa [Decision.ok] using inv.s.upd_ok _ _ _ _ _ _ hmem
-          refine .inr ⟨_, _, cs, tr, sd, rfl, ?_, ?_, hl, hcs, ?_⟩
-          · simp
-          · rw [htk]; exact hins
-          · rw [htk]; exact hdd
-    | userVisit s =>
+              (by simp [outInternal, Out.delivers, Body.isAnswer]))
+        | some t' =>
+          have hv : sealer tid = v := by
+            rw [ht] at hop
+            obtain ⟨h1, h2⟩ := opens_some hop
+            cases h1; exact h2
+          cases hrsp : sd.resp with
+          | none =>
+            simp [hg, hop, hrsp] at hm
+            obtain ⟨rfl, rfl, rfl⟩ := hm
+            exact inv.quiet_return hi _ [_] (by simp [Ev.neutral])
+              (retOK_simple rfl (by simp [Action.key?]; exact .inr (hik.mono [_, _]))
+                (by simp [outNotReady, Out.delivers, Body.isAnswer]))
+          | some rsp =>
+            simp [hg, hop, hrsp] at hm
+            obtain ⟨rfl, rfl, rfl⟩ := hm
+            refine inv.quiet_move hi _ [_] rfl (by simp [Ev.neutral]) ⟨v, rfl, hik.mono _, ?_⟩
+            intro d hbd
+            simp [flowKey] at hk
+            subst hk
+            rw [hrsp] at hresp
+            obtain ⟨rst, rb⟩ := rsp
+            simp only at hbd
+            subst hbd
+            obtain ⟨cs, hl, hdd⟩ := respOf_discharge hresp.symm
+            have htk : d.ticket = tid := by rw [hdd]; rfl
+            obtain ⟨i', v', r', s', k', nd', hmem⟩ := lastDecisionT_mem hl
+            have hcs : refuses cs = false := by simpa [Decision.ok] using inv.s.upd_ok _ _ _ _ _ _ _ hmem
+            refine .inr ⟨_, _, cs, tr, sd, by rw [htk, hv], ?_, ?_, hl, hcs, ?_⟩
+            · simp
+            · rw [htk]; exact hins
+            · rw [htk]; exact hdd
+    | userVisit v s =>
       simp only [micro] at hm
       cases hg : S.store.get (userKey s) with
       | none =>
@@ -1586,11 +1676,18 @@ theorem micro_inv {S : Sys} {tr : Trace} (inv : FInv S tr) {i : Nat} {act : Acti
           (retOK_simple rfl (by simp [Action.key?, Action.notFoundOut]) (by simp))
       | some sd =>
         obtain ⟨a, r, tid, ha, hr, hd, hk, ht, hins, hresp, hik⟩ := inv.s.of_get hg
-        simp [hg, ht] at hm
-        obtain ⟨rfl, rfl, rfl⟩ := hm
-        exact inv.quiet_return hi _ [_] (by simp [Ev.neutral])
-          (retOK_simple rfl (by simp [Action.key?]; exact .inr (hik.mono [_, _])) (by simp))
-    | decide r s d =>
+        cases hop : opens v sd.ticket with
+        | none =>
+          simp [hg, hop] at hm
+          obtain ⟨rfl, rfl, rfl⟩ := hm
+          exact inv.quiet_return hi _ [_] (by simp [Ev.neutral])
+            (retOK_simple rfl (by simp [Action.key?]; exact .inr (hik.mono [_, _])) (by simp))
+        | some t' =>
+          simp [hg, hop] at hm
+          obtain ⟨rfl, rfl, rfl⟩ := hm
+          exact inv.quiet_return hi _ [_] (by simp [Ev.neutral])
+            (retOK_simple rfl (by simp [Action.key?]; exact .inr (hik.mono [_, _])) (by simp))
+    | decide v r s d =>
       simp only [micro] at hm
       cases hg : S.store.get ⟨r, s⟩ with
       | none =>
@@ -1601,23 +1698,20 @@ theorem micro_inv {S : Sys} {tr : Trace} (inv : FInv S tr) {i : Nat} {act : Acti
       | some sd =>
         obtain ⟨a, rc, tid, ha, hr, hd, hk, ht, hins, hresp, hik⟩ := inv.s.of_get hg
         simp only [hg] at hm
-        cases hdd : decideData sd d with
+        cases hdd : decideData v sd d with
         | none =>
           simp [hdd] at hm
           obtain ⟨rfl, rfl, rfl⟩ := hm
           exact inv.quiet_return hi _ [_] (by simp [Ev.neutral])
             (retOK_simple rfl (by simp [Action.key?, Action.notFoundOut]) (by simp))
         | some nd =>
-          have hok := decideData_some_ok hdd
-          rw [decideData_respOf ht d hok] at hdd
-          cases hdd
-          rw [decideData_respOf ht d hok] at hm
-          simp at hm
+          obtain ⟨hnd', hok, _⟩ := decideData_some ht hdd
+          simp [hdd] at hm
           obtain ⟨rfl, rfl, rfl⟩ := hm
           refine inv.quiet_move hi _ [_] rfl (by simp [Ev.neutral]) ?_
-          exact ⟨r, s, d, a, tid, rc, rfl, rfl, hk, hr, hd ▸ ht, by simp [ht], hok⟩
+          exact ⟨v, r, s, d, a, tid, rc, rfl, rfl, hk, hr, hd ▸ ht, by rw [hnd']; simp [ht], hok⟩
   | pollDelete s r =>
-    obtain ⟨hact, hpj⟩ := hT
+    obtain ⟨v, hact, hpj⟩ := hT
     simp only at hact
     subst hact
     simp only [micro] at hm
@@ -1633,15 +1727,15 @@ theorem micro_inv {S : Sys} {tr : Trace} (inv : FInv S tr) {i : Nat} {act : Acti
       obtain ⟨rfl, rfl, rfl⟩ := hm
       obtain ⟨ha0, hk⟩ := inv.s.wf.addr_flowKey ha
       simp [flowKey] at hk
-      exact inv.quiet_move hi _ [_] rfl (by simp [Ev.neutral]) ⟨rfl, hpj.mono _, hk, ha0⟩
+      exact inv.quiet_move hi _ [_] rfl (by simp [Ev.neutral]) ⟨v, rfl, hpj.mono _, hk, ha0⟩
   | pollRemove s a r =>
-    obtain ⟨hact, hpj, hs, ha0⟩ := hT
+    obtain ⟨v, hact, hpj, hs, ha0⟩ := hT
     simp only at hact
     subst hact
     simp [micro] at hm
     obtain ⟨rfl, rfl, rfl⟩ := hm
-    have hs1 := inv.s.remove i (.poll s) a ha0
-    have hs2 := hs1.quiet [.returned i (.poll s) (deliver r)] (by simp [Ev.neutral]) hs1.wf rfl (fun _ h => h)
+    have hs1 := inv.s.remove i (.poll v s) a ha0
+    have hs2 := hs1.quiet [.returned i (.poll v s) (deliver r)] (by simp [Ev.neutral]) hs1.wf rfl (fun _ h => h)
     refine inv.step_thread hi _ _ [_, _] hs2 (StoreLe.remove _ _) (by simp [Ev.thread?]) trivial ?_
     intro j a' o hmem
     simp at hmem
@@ -1657,11 +1751,11 @@ theorem micro_inv {S : Sys} {tr : Trace} (inv : FInv S tr) {i : Nat} {act : Acti
       simp [Action.key?] at hk
       subst hk
       exact .inr (hpj.1.mono [_, _])
-    · intro s' hs' _
+    · intro v' s' hs' _
       cases hs'
-      exact ⟨a, j, .poll s, hs, by simp⟩
+      exact ⟨a, j, .poll v s, hs, by simp⟩
   | update k nd =>
-    obtain ⟨r, s, d, a, tid, rc, hact, hk1, hk2, hr, ht, hnd', hok⟩ := hT
+    obtain ⟨v, r, s, d, a, tid, rc, hact, hk1, hk2, hr, ht, hnd', hok⟩ := hT
     simp only at hact
     subst hact
     simp only [micro] at hm
@@ -1681,15 +1775,15 @@ theorem micro_inv {S : Sys} {tr : Trace} (inv : FInv S tr) {i : Nat} {act : Acti
         exact ((flowKey_inj this).1).symm
       subst haa
       subst hnd'
-      have hs1 := inv.s.update i r s d a' tid rc k ha' hk1 hr ht hok
-      have hs2 := hs1.quiet [.returned i (.decide r s d) (.api true)] (by simp [Ev.neutral]) hs1.wf rfl (fun _ h => h)
+      have hs1 := inv.s.update i v r s d a' tid rc k ha' hk1 hr ht hok
+      have hs2 := hs1.quiet [.returned i (.decide v r s d) (.api true)] (by simp [Ev.neutral]) hs1.wf rfl (fun _ h => h)
       refine inv.step_thread hi _ _ [_, _] hs2 (StoreLe.modify _ _ _ _ _ hr ht) (by simp [Ev.thread?]) trivial ?_
       intro j a'' o hmem
       simp at hmem
       obtain ⟨rfl, rfl, rfl⟩ := hmem
       refine retOK_simple rfl ?_ (by simp) ?_
       rotate_left
-      · intro r' s' cs hact hrf
+      · intro v' r' s' cs hact hrf
         cases hact
         simp [Decision.ok, hrf] at hok
       intro k' hk'
@@ -1759,29 +1853,30 @@ theorem micro_store (st : Store) (act : Action) (pc : PC) :
   cases pc with
   | start =>
     cases act with
-    | init t m =>
-      cases t with
-      | bad n => exact .inl rfl
-      | good tid =>
+    | init v t m =>
+      simp only [micro]
+      cases ho : opens v t with
+      | none => exact .inl rfl
+      | some tid =>
         cases m with
         | poll => exact .inr (.inl ⟨_, rfl⟩)
         | userInteractive => exact .inr (.inl ⟨_, rfl⟩)
         | immediate cs => exact .inl rfl
         | refuse s m => exact .inl rfl
         | noResponse => exact .inl rfl
-    | poll s =>
+    | poll v s =>
       left; simp only [micro]
       split
       · rfl
       · split
         · rfl
         · split <;> rfl
-    | userVisit s =>
+    | userVisit v s =>
       left; simp only [micro]
       split
       · rfl
       · split <;> rfl
-    | decide r s d =>
+    | decide v r s d =>
       left; simp only [micro]
       split
       · rfl
@@ -1819,11 +1914,11 @@ theorem micro_keys (st : Store) (act : Action) (pc : PC) :
 theorem micro_start_not_found {st : Store} {a : Action} {k : Key} (hk : a.key? = some k) (hg : st.get k = none) :
     micro st a .start = (st, .done a.notFoundOut, [.got k none]) := by
   cases a with
-  | init t m => simp [Action.key?] at hk
+  | init v t m => simp [Action.key?] at hk
   | evict k' => simp [Action.key?] at hk
-  | poll s => simp [Action.key?] at hk; subst hk; simp [micro, hg, Action.notFoundOut]
-  | userVisit s => simp [Action.key?] at hk; subst hk; simp [micro, hg, Action.notFoundOut]
-  | decide r s d => simp [Action.key?] at hk; subst hk; simp [micro, hg, Action.notFoundOut]
+  | poll v s => simp [Action.key?] at hk; subst hk; simp [micro, hg, Action.notFoundOut]
+  | userVisit v s => simp [Action.key?] at hk; subst hk; simp [micro, hg, Action.notFoundOut]
+  | decide v r s d => simp [Action.key?] at hk; subst hk; simp [micro, hg, Action.notFoundOut]
 
 /-- the action presents one of the two keys of the flow at address `adr` -/
 def OfFlow (a : Action) (adr : Nat) : Prop :=
@@ -1949,13 +2044,13 @@ theorem late_foldl {n0 adr : Nat} {c : Sys × Trace} (inv : FInv c.1 c.2) (l : L
 poll has returned (in `s0`), every handler spawned later that presents a key of that flow answers
 not-found -/
 theorem gone_hb (s0 s1 : List Sched) {i ps us tid : Nat} {o : Out}
-    (hret : Ev.returned i (.poll ps) o ∈ (Sys.run s0).2) (hdel : o.delivers = true)
+    {v : Nat} (hret : Ev.returned i (.poll v ps) o ∈ (Sys.run s0).2) (hdel : o.delivers = true)
     (hins : InsertedT (Sys.run s0).2 tid ps us)
     {j : Nat} {a : Action} {o' : Out} (hj : (Sys.run s0).1.threads.length ≤ j)
     (hret' : Ev.returned j a o' ∈ (s1.foldl Sys.step (Sys.run s0)).2)
     {k : Key} (hk : a.key? = some k) (hkk : k = pollKey ps ∨ k = userKey us) : o' = a.notFoundOut := by
   have inv := run_inv s0
-  obtain ⟨adr, j0, act0, hps, hrem⟩ := (inv.t.rets _ _ _ hret).2.2.1 ps rfl hdel
+  obtain ⟨adr, j0, act0, hps, hrem⟩ := (inv.t.rets _ _ _ hret).2.2.1 v ps rfl hdel
   obtain ⟨hlt, hno⟩ := inv.s.gone _ _ _ hrem
   obtain ⟨a', _, hps', hus'⟩ := inv.s.issued _ _ _ hins
   have haa : a' = adr := by omega
@@ -1984,74 +2079,74 @@ theorem microSt_done (a : Action) (st : Store) (o : Out) : microSt a (st, .done 
 theorem micro3_eq_step (st : Store) (a : Action) (hne : ∀ k, a ≠ .evict k) :
     microSt a (microSt a (microSt a (st, .start))) = ((step st a).1, .done (step st a).2) := by
   cases a with
-  | init t m =>
-    cases t with
-    | bad n => rfl
-    | good tid =>
+  | init v t m =>
+    cases ho : opens v t with
+    | none => simp [microSt, micro, step, ho]
+    | some tid =>
       cases m with
-      | immediate cs => by_cases hrf : refuses cs = true <;> simp [microSt, micro, step, initGood, hrf]
-      | poll => rfl
-      | userInteractive => rfl
-      | refuse s m => rfl
-      | noResponse => rfl
+      | immediate cs => by_cases hrf : refuses cs = true <;> simp [microSt, micro, step, ho, initGood, hrf]
+      | poll => simp [microSt, micro, step, ho, initGood]
+      | userInteractive => simp [microSt, micro, step, ho, initGood]
+      | refuse s m => simp [microSt, micro, step, ho, initGood]
+      | noResponse => simp [microSt, micro, step, ho, initGood]
   | evict k => exact absurd rfl (hne k)
-  | poll s =>
+  | poll v s =>
     cases hg : st.get (pollKey s) with
     | none =>
-      have h1 : microSt (.poll s) (st, .start) = (st, .done outNotFound) := by simp [microSt, micro, hg]
+      have h1 : microSt (.poll v s) (st, .start) = (st, .done outNotFound) := by simp [microSt, micro, hg]
       rw [h1, microSt_done, microSt_done]; simp [step, hg]
     | some sd =>
-      cases ht : sd.ticket with
-      | bad n =>
-        have h1 : microSt (.poll s) (st, .start) = (st, .done outInternal) := by simp [microSt, micro, hg, ht]
+      cases ht : opens v sd.ticket with
+      | none =>
+        have h1 : microSt (.poll v s) (st, .start) = (st, .done outInternal) := by simp [microSt, micro, hg, ht]
         rw [h1, microSt_done, microSt_done]; simp [step, hg, ht]
-      | good tid =>
+      | some tid =>
         cases hr : sd.resp with
         | none =>
-          have h1 : microSt (.poll s) (st, .start) = (st, .done outNotReady) := by simp [microSt, micro, hg, ht, hr]
+          have h1 : microSt (.poll v s) (st, .start) = (st, .done outNotReady) := by simp [microSt, micro, hg, ht, hr]
           rw [h1, microSt_done, microSt_done]; simp [step, hg, ht, hr]
         | some r =>
-          have h1 : microSt (.poll s) (st, .start) = (st, .pollDelete s r) := by simp [microSt, micro, hg, ht, hr]
+          have h1 : microSt (.poll v s) (st, .start) = (st, .pollDelete s r) := by simp [microSt, micro, hg, ht, hr]
           rw [h1]
           cases ha : st.addr (pollKey s) with
           | none =>
-            have h2 : microSt (.poll s) (st, .pollDelete s r) = (st, .done outInternal) := by simp [microSt, micro, ha]
+            have h2 : microSt (.poll v s) (st, .pollDelete s r) = (st, .done outInternal) := by simp [microSt, micro, ha]
             rw [h2, microSt_done]; simp [step, hg, ht, hr, Store.delete, ha]
           | some a =>
-            have h2 : microSt (.poll s) (st, .pollDelete s r) = (st, .pollRemove s a r) := by simp [microSt, micro, ha]
+            have h2 : microSt (.poll v s) (st, .pollDelete s r) = (st, .pollRemove s a r) := by simp [microSt, micro, ha]
             rw [h2]; simp [microSt, micro, step, hg, ht, hr, Store.delete, ha]
-  | userVisit s =>
+  | userVisit v s =>
     cases hg : st.get (userKey s) with
     | none =>
-      have h1 : microSt (.userVisit s) (st, .start) = (st, .done outNotFound) := by simp [microSt, micro, hg]
+      have h1 : microSt (.userVisit v s) (st, .start) = (st, .done outNotFound) := by simp [microSt, micro, hg]
       rw [h1, microSt_done, microSt_done]; simp [step, hg]
     | some sd =>
-      cases ht : sd.ticket with
-      | bad n =>
-        have h1 : microSt (.userVisit s) (st, .start) = (st, .done outInternal) := by simp [microSt, micro, hg, ht]
+      cases ht : opens v sd.ticket with
+      | none =>
+        have h1 : microSt (.userVisit v s) (st, .start) = (st, .done outInternal) := by simp [microSt, micro, hg, ht]
         rw [h1, microSt_done, microSt_done]; simp [step, hg, ht]
-      | good tid =>
-        have h1 : microSt (.userVisit s) (st, .start) = (st, .done (.http 200 .page true)) := by simp [microSt, micro, hg, ht]
+      | some tid =>
+        have h1 : microSt (.userVisit v s) (st, .start) = (st, .done (.http 200 .page true)) := by simp [microSt, micro, hg, ht]
         rw [h1, microSt_done, microSt_done]; simp [step, hg, ht]
-  | decide r s d =>
+  | decide v r s d =>
     cases hg : st.get ⟨r, s⟩ with
     | none =>
-      have h1 : microSt (.decide r s d) (st, .start) = (st, .done (.api false)) := by simp [microSt, micro, hg]
+      have h1 : microSt (.decide v r s d) (st, .start) = (st, .done (.api false)) := by simp [microSt, micro, hg]
       rw [h1, microSt_done, microSt_done]; simp [step, hg]
     | some sd =>
-      cases hd : decideData sd d with
+      cases hd : decideData v sd d with
       | none =>
-        have h1 : microSt (.decide r s d) (st, .start) = (st, .done (.api false)) := by simp [microSt, micro, hg, hd]
+        have h1 : microSt (.decide v r s d) (st, .start) = (st, .done (.api false)) := by simp [microSt, micro, hg, hd]
         rw [h1, microSt_done, microSt_done]; simp [step, hg, hd]
       | some nd =>
-        have h1 : microSt (.decide r s d) (st, .start) = (st, .update ⟨r, s⟩ nd) := by simp [microSt, micro, hg, hd]
+        have h1 : microSt (.decide v r s d) (st, .start) = (st, .update ⟨r, s⟩ nd) := by simp [microSt, micro, hg, hd]
         rw [h1]
         cases hu : st.update ⟨r, s⟩ nd with
         | none =>
-          have h2 : microSt (.decide r s d) (st, .update ⟨r, s⟩ nd) = (st, .done (.api false)) := by simp [microSt, micro, hu]
+          have h2 : microSt (.decide v r s d) (st, .update ⟨r, s⟩ nd) = (st, .done (.api false)) := by simp [microSt, micro, hu]
           rw [h2, microSt_done]; simp [step, hg, hd, hu]
         | some st' =>
-          have h2 : microSt (.decide r s d) (st, .update ⟨r, s⟩ nd) = (st', .done (.api true)) := by simp [microSt, micro, hu]
+          have h2 : microSt (.decide v r s d) (st, .update ⟨r, s⟩ nd) = (st', .done (.api true)) := by simp [microSt, micro, hu]
           rw [h2, microSt_done]; simp [step, hg, hd, hu]
 
 /-- a scheduled step of the last thread, on the system state -/
@@ -2117,10 +2212,10 @@ theorem seq_refines_gen (as : List Action) (S : Sys) (tr : Trace) (h : Hist) :
     | evict k =>
       simp only [seqSched, seqThreads, List.foldl_cons]
       exact ih { S with store := S.store.evict k } _ _
-    | init t m => simpa [seqThreads] using hne (by simp)
-    | poll s => simpa [seqThreads] using hne (by simp)
-    | userVisit s => simpa [seqThreads] using hne (by simp)
-    | decide r s d => simpa [seqThreads] using hne (by simp)
+    | init v t m => simpa [seqThreads] using hne (by simp)
+    | poll v s => simpa [seqThreads] using hne (by simp)
+    | userVisit v s => simpa [seqThreads] using hne (by simp)
+    | decide v r s d => simpa [seqThreads] using hne (by simp)
 
 /-- a sequential schedule of the store-operation semantics computes exactly the handler-level run -/
 theorem seq_refines (as : List Action) :
